@@ -1333,10 +1333,60 @@ fn check_finish<T: Sc>(inst: &Inst<T>, qi: usize, fin: &Finish<T>, ev: EpsVar, f
     let _ = ev;
 }
 
+/// C10: NaN is a parameter value like any other.  After an update with a NaN component the problem
+/// reports those parameters and exposes what a fresh problem at them exposes (here: nothing, the model
+/// does not evaluate off its table) - not the values of the previous parameters.
+fn nan_parameter_probe<T: Sc>(rep: &mut Report) {
+    let n = 4usize;
+    let entry = |a: i64| TableEntry {
+        a: vec![a, 0],
+        phi: DMatrix::from_fn(n, 2, |i, j| T::of64(if j == 0 { (i as f64 + 1.0 + a as f64) } else { 1.0 })),
+        dphi: vec![DMatrix::from_fn(n, 2, |i, j| T::of64(if j == 0 { i as f64 } else { 0.0 })), DMatrix::from_element(n, 2, T::zero())],
+    };
+    let table = Arc::new(Table { n, m: 2, p: 2, entries: vec![entry(0), entry(1)] });
+    let y = DMatrix::from_fn(n, 1, |i, _| T::of64([3.0, -1.0, 2.0, 5.0][i]));
+    for par in [false, true] {
+        for mrhs in [false, true] {
+            let Ok(mut prob) = build_problem(TableModel::new(table.clone(), &[0, 0]), mrhs, par, &y, None, None) else {
+                rep.tool_error("nan parameter probe: cannot build".into());
+                continue;
+            };
+            let nan = T::of64(f64::NAN);
+            let steps: Vec<Vec<T>> = vec![
+                vec![T::of64(1.0), T::zero()],
+                vec![nan, T::zero()],
+                vec![T::of64(1.0), T::zero()],
+                vec![T::of64(1.0), nan],
+                vec![nan, nan],
+                vec![T::zero(), T::zero()],
+            ];
+            for (step, a) in steps.iter().enumerate() {
+                let flav = format!("nan parameter probe {} mrhs={} par={} step={}", T::NAME, mrhs, par, step);
+                let det = |what: &str| json!({"flavour": flav, "what": what});
+                prob.set_params(a);
+                let has_nan = a.iter().any(|v| v.to64().is_nan());
+                let o = observe(prob.as_ref());
+                rep.check("C10", bits_eq(&prob.params(), a), 0.0, || det("the problem does not report the parameters that were applied"));
+                if has_nan {
+                    rep.check("C10", o.c.is_none() && o.r.is_none() && o.j.is_none(), 0.0, || det("values of earlier parameters are exposed after an update with NaN parameters (a fresh problem exposes nothing there)"));
+                } else {
+                    let fresh = build_problem(TableModel::new(table.clone(), &[a[0].to64() as i64, 0]), mrhs, par, &y, None, None);
+                    if let Ok(f) = fresh {
+                        rep.check("C10", obs_bits_eq(&o, &observe(f.as_ref())), 0.0, || det("state after a history with NaN parameters differs from a fresh problem"));
+                    }
+                }
+            }
+            rep.count("nan_parameter_probes", 1);
+        }
+    }
+}
+
 /// the probes beyond the enumerated universe (also available on their own: subcommand `probes`)
 pub fn run_probes(total: &mut Report) {
     signed_zero_probe::<f64>(total);
     signed_zero_probe::<f32>(total);
+    nan_parameter_probe::<f64>(total);
+    nan_parameter_probe::<f32>(total);
     many_functions_probe::<f64>(total);
     many_columns_probe::<f64>(total);
     many_columns_probe::<f32>(total);
